@@ -175,7 +175,8 @@ func runGate(G, K int, init bool, s uint64, stats map[string]int) ([]event, [][2
 	select {
 	case <-done:
 	case <-time.After(20 * time.Second):
-		return nil, [][2]string{{"hang", "gate scenario did not finish within 20 s"}}
+		// every goroutine still alive is blocked: what was recorded so far is still reported
+		fails.add("hang", "gate scenario did not finish within 20 s")
 	}
 	var all []event
 	for gid, r := range recs {
